@@ -157,7 +157,7 @@ class Template:
 
     def ident(self):
         return {"host": self.host, "hashseed": self.hashseed, "exe": sys.executable, "pad": self.pad,
-                "opt": int(sys.flags.optimize),
+                "opt": int(os.environ.get("VERIF_PYFLAGS_INDEX", "0") or 0),
                 "aslr_disabled": _aslr_disabled()}
 
 
